@@ -77,10 +77,13 @@ def _run_cli(module: str, argv: list[str], vfs_dump: dict, faults: list | None =
     vfs = Vfs.load(vfs_dump)
     vfs.faults = [dict(f) for f in (faults or [])]
     vfs.install()
-    out, err = FakeStream(stdout_fail_after, encoding=stdout_encoding), FakeStream()
+    closed = stdout_fail_after == "closed"  # the process was started with its standard output closed (`>&-`)
+    out, err = FakeStream(None if closed else stdout_fail_after, encoding=stdout_encoding), FakeStream()
+    if closed:
+        out.failed = True
     old = (sys.argv, sys.stdout, sys.stderr)
     sys.argv = [module] + list(argv)
-    sys.stdout, sys.stderr = out, err
+    sys.stdout, sys.stderr = (None if closed else out), err
     code = 0
     g = None
     try:
@@ -313,6 +316,11 @@ SPECIAL_PROGRAMS = [
     "def 0 {\n    a();\n    end;\n}\ndef 1 for actor ACTOR_X {\n    for (i(); $A < 3; n();) {\n        b0();\n    }\n    end;\n}\n",
     "def 0 {\n    dungeon_mode(3) = DMODE_OPEN;\n    dungeon_mode(4) = 2;\n    switch (dungeon_mode(3)) {\n        case DMODE_OPEN:\n            a();\n            break;\n        case DMODE_REQUEST:\n            b();\n            break;\n        case OPEN_AND_REQUEST:\n            c();\n            break;\n    }\n    end;\n}\n",
     "coro CORO_T {\n    forever {\n        while ($S <= 42) {\n            while ($A & 3) {\n                x(1);\n                y(2);\n            }\n        }\n        z();\n        if ($A < $B) {\n            break_loop;\n        }\n    }\n    end;\n}\n",
+    # the first op of a routine reached only from another routine (b6dab34)
+    "def 0 {\n    @top;\n    foo();\n    bar();\n    end;\n}\ndef 1 {\n    baz();\n    jump @top;\n}\n",
+    "def 0 {\n    jump @later;\n}\ndef 1 for actor 2 {\n    @later;\n    b();\n    end;\n}\n",
+    "def 0 {\n    a();\n    call @sub;\n    end;\n}\ndef 1 {\n    @sub;\n    s();\n    return;\n}\n",
+    "def 0 {\n    if ($A == 1) {\n        jump @other;\n    }\n    end;\n}\ndef 1 {\n    @other;\n    o();\n    hold;\n}\n",
     # first / last op of the document as jump targets
     "def 0 {\n    @top;\n    a();\n    if ($A == 1) {\n        jump @top;\n    }\n    @bottom;\n    end;\n}\ndef 1 {\n    jump @bottom;\n}\n",
 ]
@@ -384,7 +392,12 @@ def gen_world(run_seed: int) -> dict:
         v.mkdir("/proj/build")
     argv = [main_arg, "--settings", rng.choice(["settings.json", "/proj/settings.json"])]
     if lookup_args:
-        argv += ["--lookup"] + lookup_args
+        if len(lookup_args) > 1 and rng.random() < 0.5:
+            # "--lookup PATH ... can be added multiple times" (docs/cli_api_usage.rst)
+            for la in lookup_args:
+                argv += ["--lookup", la]
+        else:
+            argv += ["--lookup"] + lookup_args
     if sm:
         argv += ["--source-map", sm]
     return {"kind": kind, "vfs": v.dump(), "argv": argv, "main_abs": main, "lookup_abs": lookup_abs, "sm": sm}
@@ -479,9 +492,9 @@ def _fp(v: str) -> str:
 # ---- one run ---------------------------------------------------------------------------------------------
 
 COMPILE_FAULTS = ["settings_missing", "settings_invalid_json", "settings_key_missing", "settings_dmc_incomplete", "source_missing",
-                  "source_map_dir_missing", "source_map_enospc", "stdout_fails", "settings_eio", "source_eio", "import_eio"]
+                  "source_map_dir_missing", "source_map_enospc", "stdout_fails", "stdout_closed", "settings_eio", "source_eio", "import_eio"]
 DECOMPILE_FAULTS = ["json_missing", "json_invalid", "json_settings_missing", "json_routine_type_invalid", "json_op_without_params",
-                    "source_map_dir_missing", "source_map_enospc", "stdout_fails", "json_eio"]
+                    "source_map_dir_missing", "source_map_enospc", "stdout_fails", "stdout_closed", "json_eio"]
 
 
 def run_world(item: dict) -> dict:
@@ -657,6 +670,8 @@ def _compile_fault(res, w, f, frng, out_len, sm_len, viol, count_exit):
         faults.append({"call": "write", "path": None, "after_bytes": frng.randrange(0, max(1, sm_len)), "errno": errno.ENOSPC})
     elif f == "stdout_fails":
         fail_after = frng.randrange(0, max(1, out_len))
+    elif f == "stdout_closed":
+        fail_after = "closed"
     elif f == "settings_eio":
         faults.append({"call": "open", "path": "/proj/settings.json", "nth": 1, "errno": errno.EIO})
     elif f == "source_eio":
@@ -728,6 +743,8 @@ def _decompile_faults(res, vfs_dump, json_arg, printed, frng, viol, count_exit):
             faults.append({"call": "write", "path": None, "after_bytes": frng.randrange(0, 20), "errno": errno.ENOSPC})
         elif f == "stdout_fails":
             fail_after = frng.randrange(0, 30)
+        elif f == "stdout_closed":
+            fail_after = "closed"
         elif f == "json_eio":
             faults.append({"call": "open", "path": path, "nth": 1, "errno": errno.EIO})
         r = run_cli("explorerscript.cli.decompile", argv, v.dump(), faults, fail_after)
